@@ -105,7 +105,13 @@ structure Input where
   callerCtx : String           -- state of the context the caller handed to Verify (live, with a deadline,
                                -- already cancelled, already expired): must not matter
   methods : List String        -- OCSP / CRL / fallback annotations (logging only)
-  serverErrors : List Bool     -- per-certificate server errors (logging only)
+  servers : List (List String) -- per certificate: its per-SERVER results ("unknown/ocspTimeout", "ok/none", ...:
+                               -- the server's own result and the kind of typed error it carries; none, one or
+                               -- several servers, all errored, all timed out, mixed): logging only - the
+                               -- aggregation depends on the per-certificate result alone, must not matter
+  validatorImpl : String       -- "scripted": an instrumented validator answers `vec`; "stock": the notation-core-go
+                               -- validator behind an HTTP transport (answering good / revoked / unknown, failing,
+                               -- timing out per certificate) produced `vec`, observed in passing: must not matter
   errorWithResults : Bool      -- a validator-level error arrives TOGETHER with per-certificate results
                                -- (only meaningful with validatorError): the error decides, not the results
   deprecatedCtor : Bool        -- the verifier was built with the deprecated NewWithOptions constructor: must not matter
